@@ -767,7 +767,7 @@ namespace avel {
         *exp = _mm512_maskz_cvttps_epi32(is_non_zero, exponents);
 
         auto ret = _mm512_getmant_ps(decay(v), _MM_MANT_NORM_p5_1, _MM_MANT_SIGN_src);
-        ret = _mm512_maskz_mov_ps(is_non_zero, ret);
+        ret = _mm512_mask_mov_ps(decay(v), is_non_zero, ret);
         ret = _mm512_mask_blend_ps(is_infinity, ret, decay(v));
         return vec16x32f{ret};
 
@@ -780,7 +780,7 @@ namespace avel {
         *exp = _mm512_maskz_cvttps_epi32(is_non_zero, exponents);
 
         auto ret = _mm512_getmant_ps(decay(v), _MM_MANT_NORM_p5_1, _MM_MANT_SIGN_src);
-        ret = _mm512_maskz_mov_ps(is_non_zero, ret);
+        ret = _mm512_mask_mov_ps(decay(v), is_non_zero, ret);
         ret = _mm512_mask_blend_ps(is_infinity, ret, decay(v));
         return vec16x32f{ret};
 
